@@ -32,6 +32,59 @@ PROP = "C01"
 LEAN_PROPS = "PpciVerif/Props/C01.lean"
 LEAN_TARGETS = ["PpciVerif.Props.C01", "Drivers.C01"]
 LEVEL = "proof"
+LEVEL_TEXT = (
+    "PARTIAL claim (integer expressions and object layout, x86_64). Lean theorems, for ALL expressions of any size and nesting built "
+    "from variables of the 11 integer types, integer constants (all bases/suffixes), character constants, sizeof(type), unary + - ~ !, "
+    "binary + - * / % << >> & | ^ < > <= >= == != && ||, ?: and casts, and for ALL values of the variables: (typing) the model of "
+    "ppci's semantic actions elaborates every expression C types and gives it exactly C's type (integer promotions, usual arithmetic "
+    "conversions, constant types, result types), with a finite table theorem stating the exact conversions inserted for every operator on "
+    "every pair of the 10 BasicTypes; (values) whenever C defines the value (Spec.CExpr = Spec.CInt + variables; undefined behaviour = no "
+    "value) the IR instructions the model of the code generator emits (IR operator and IR type per node; comparison / && || ! ?: as "
+    "conditional-jump skeletons) evaluate to that value under the instruction semantics of the reference IR interpreter Spec.IR, and "
+    "the emitted condition code branches on value != 0; (tables) on every target whose C front-end builds, the IR type of each integer "
+    "C type has its width and signedness and sizeof has an unsigned type; (layout) for all struct/union/array types over basic types "
+    "and pointers without bit-fields, size, alignment and member offsets computed by the model of CContext equal the System V x86-64 "
+    "layout (Spec.CLayout: members at the lowest aligned offset, size rounded up to the alignment). The models are hand-written; their "
+    "tables are re-checked (decide) against a dump of the live objects on every run, and they are tied to the source by a differential "
+    "run that is EXHAUSTIVE over operator x type x type for typing and emitted code and sampled for nested expressions, operand values and "
+    "layouts. NOT claimed (only searched by differential runs, no theorem): statements, control flow, pointers and pointer arithmetic, "
+    "arrays as values, calls, assignment and ++/--, switch, loops, the parser (precedence), bit-fields, anonymous members, floating "
+    "point, enums, targets other than x86_64 for typing/values/layout."
+)
+LEVEL_NOTE = (
+    "trusted: Lean kernel; axioms propext/Classical.choice/Quot.sound; Spec.CInt/Spec.CExpr (C11 on LP64, gcc's implementation-defined "
+    "choices; validated against gcc 12 -fsanitize=undefined in the thorough tier on the generated expressions, not proved); Spec.IR "
+    "instruction semantics; Spec.IRExpr: the tree-shaped composition of those instructions that abstracts block names, jumps and phi "
+    "bookkeeping of the conditional skeletons - its relation to the block-structured function is NOT proved, it is re-established per "
+    "generated program by symbolically executing the real function into the same decision tree and by running the real IR with Spec.IR "
+    "itself and with ir_to_python; Spec.CLayout (psABI text; validated against gcc in the thorough tier); hand model <-> source "
+    "correspondence is exhaustive for single operators on all type pairs but sampled for nested trees, values and layouts."
+)
+TECHNIQUE = ("Lean 4 proof: structural induction over expression trees with an invariant (type, value code, condition code); finite case "
+             "analysis by decide +kernel over operators x type pairs; omega on wrap arithmetic after case split over the 11 types; "
+             "mutual structural induction over object types for layout; table translation (decide against dumped live tables); "
+             "differential correspondence of the real c_to_ir (typed AST + symbolic execution of the emitted function into a decision "
+             "tree) with the model through a line-protocol driver")
+RULE = ("(a) every operator x BasicType x BasicType program (2187: 18 binary x 10 x 10, 4 unary x 11, 121 casts, 100+11 ?:): typed AST "
+        "and emitted decision tree compared, values on boundary x boundary + random vectors; (b) corpus of past defects/boundaries, then "
+        "random expression trees of depth <= 4 (quick) / 5 (thorough) over 1..6 variables of random types with boundary-biased "
+        "argument vectors; (c) layout corpus + random struct/union/array types of depth <= 3. distinct = distinct (program, argument "
+        "vector) or layout type. non-trivial = the real front-end inserted an implicit conversion (single-operator programs), or C's "
+        "value differs from the value computed with unbounded integers and no conversions (wrap, sign change, truncation, short-circuit "
+        "of an undefined operand), or the layout contains padding")
+TRUSTED = [
+    "hand models Model.CType / Model.CLower / Model.CLayout of ppci/lang/c/{semantics,codegenerator,context}.py (integer BasicTypes, x86_64), tied by Gen.CTypes tables (decide) and a differential run of c_to_ir on every check",
+    "Model.CBridge.toSrc: how a tree is written in C and read back by ppci's lexer/parser (exercised by the differential run, fully parenthesised text, not modelled)",
+    "Spec.CExpr / Spec.CInt: C11 integer expressions on LP64 as gcc implements the implementation-defined parts; validated against gcc 12 with -fsanitize=undefined (thorough)",
+    "Spec.IR instruction semantics and Spec.IRExpr (tree-shaped composition; block/phi structure abstracted, re-established per program by the harness)",
+    "Spec.CLayout: System V x86-64 psABI data layout; validated against gcc 12 (thorough)",
+    "harness/c01_lib.py decision_tree: symbolic execution of the real ir.Function (alloca slots, phis resolved along the path)",
+]
+ASSUMPTIONS = [
+    "x86_64 (LP64) for typing, values and layout; char is signed",
+    "generated expressions are printed fully parenthesised, so operator precedence of ppci's parser is not under test",
+    "variables are function parameters read through their stack slot (no aliasing, no volatile)",
+]
 
 INT_IDS = ["char", "unsigned char", "short", "unsigned short", "int", "unsigned int", "long", "unsigned long", "long long",
            "unsigned long long"]
@@ -91,8 +144,8 @@ def gen_text():
     unsv = [(i, rs.get_type(["unsigned"] + i.split()).type_id) for i in INT_IDS if i in BasicType.SIGNED_INTEGER_TYPES]
     archs = []
     for name, st, types, ps, pa, szof, szt in arch_rows():
-        ts = "[" + ", ".join(f"({_s(t)}, {s}, {a}, {_s(i)})" for t, s, a, i in types) + "]"
-        archs.append(f"  ({_s(name)}, {_s(st)}, {ts}, {ps}, {pa}, {_s(szof)}, {_s(szt)})")
+        ts = "[" + ", ".join(f"⟨{_s(t)}, {s}, {a}, {_s(i)}⟩" for t, s, a, i in types) + "]"
+        archs.append(f"  ⟨{_s(name)}, {_s(st)}, {ts}, {ps}, {pa}, {_s(szof)}, {_s(szt)}⟩")
     out = [
         "/- GENERATED by harness/c01.py regen() from the live ppci objects of the checked tree - do not edit -/",
         "namespace Gen.CTypes", "",
@@ -104,10 +157,25 @@ def gen_text():
         f"def integerTypes : List String := {strs(sorted(BasicType.INTEGER_TYPES))}", "",
         "/-- `RootScope().get_type([\"unsigned\"] + tid.split()).type_id` for the signed integer types -/",
         f"def unsignedVariants : List (String × String) := {pairs(unsv, True)}", "",
-        "/-- per target: (name, \"ok\" | exception raised while building CContext/CCodeGenerator/CSemantics,",
-        "    [(type id, `type_size_map` size, alignment, `ir_type_map` ir type)], pointer size, pointer alignment,",
-        "    type id of a `sizeof` expression (`on_sizeof(...).typ`), `size_t_type` id) -/",
-        "def archs : List (String × String × List (String × Nat × Nat × String) × Nat × Nat × String × String) := [",
+        "/-- one basic type on one target: `CContext.type_size_map[tid]` and `CCodeGenerator.ir_type_map[tid][0]` -/",
+        "structure TypeRow where",
+        "  tid : String",
+        "  size : Nat",
+        "  align : Nat",
+        "  irTy : String",
+        "  deriving DecidableEq, Repr", "",
+        "/-- one target: status is \"ok\" or the exception raised while building CContext/CCodeGenerator/CSemantics;",
+        "    pointer size and alignment; type id of a `sizeof` expression (`on_sizeof(...).typ`); `size_t_type` id -/",
+        "structure ArchRow where",
+        "  name : String",
+        "  status : String",
+        "  types : List TypeRow",
+        "  ptrSize : Nat",
+        "  ptrAlign : Nat",
+        "  sizeofTy : String",
+        "  sizeT : String",
+        "  deriving DecidableEq, Repr", "",
+        "def archs : List ArchRow := [",
         ",\n".join(archs),
         "]", "",
         "end Gen.CTypes", "",
@@ -800,6 +868,16 @@ def validate_spec_with_gcc(ctx, cases, replies, slots):
                 if gv != want:
                     raise common.BrokenCheck(f"Spec.CExpr.eval disagrees with gcc on `{L.render_c(c['tree'])}` ({decl_text(c)}) "
                                              f"args={c['argvs'][j]}: spec {want}, gcc {gv}")
+
+
+def search(ctx):
+    """Props no longer build (a dumped table changed, a theorem about the regenerated tables is false): the driver does
+    not depend on Gen/Props, so the failing-input search is the ordinary check with the specification as oracle."""
+    ok, _log = ctx.lake_build(["Drivers.C01", "Drivers.IR"])
+    if ok:
+        check(ctx)
+    else:
+        ctx.note("driver does not build either: no failing-input search possible")
 
 
 def replay(ctx, rp):
